@@ -80,6 +80,7 @@ CallRes Ctx::call(fn2 f, int64_t a, int64_t b)
     r.sig = s;
     ++st.signals;
     }
+  if(call_hook) { in_hook = true; call_hook(*this, f, a, b, r); in_hook = false; }
   return r;
   }
 static const char * signame(int s)
@@ -93,6 +94,7 @@ void Ctx::signal_event(int ci, const char * entry, int64_t a, int64_t b, int sig
   }
 void Ctx::violation(const std::string & key, int ci, int64_t a, int64_t b, int64_t c, const std::string & observed, const std::string & expected)
   {
+  if(suppress_foreign && !in_hook) return;
   VioClass & vc = st.vio[key];
   ++vc.count;
   const std::string & cn = (ci >= 0 && ci < (int)g_cfgs.size()) ? g_cfgs[ci].name : std::string("*");
